@@ -277,6 +277,23 @@ struct Emitter {
         Array as;
         for (auto *Ar : Ca->arguments()) as.push_back(expr(Ar, depth + 1));
         o["args"] = std::move(as);
+        // per argument: is the parameter a pointer to const (callee cannot write through it)
+        Array cp;
+        const FunctionProtoType *FPT = nullptr;
+        {
+          QualType CT = Ca->getCallee()->getType();
+          if (CT->isPointerType()) CT = CT->getPointeeType();
+          FPT = CT->getAs<FunctionProtoType>();
+        }
+        for (unsigned ai = 0; ai < Ca->getNumArgs(); ai++) {
+          bool c = false;
+          if (FPT && ai < FPT->getNumParams()) {
+            QualType PT = FPT->getParamType(ai);
+            if (PT->isPointerType() && PT->getPointeeType().isConstQualified()) c = true;
+          }
+          cp.push_back(c);
+        }
+        o["constp"] = std::move(cp);
       }
     } else if (auto *IL = dyn_cast<InitListExpr>(S)) {
       o["k"] = "init";
